@@ -46,7 +46,7 @@ func (b *Batch) WriteOutputs(id int, files map[string][]byte) {
 	b.OK[id] = true
 }
 
-var apiErr = regexp.MustCompile(`(?m)^(?:\./)?api(\d+)/api\.go:\d+:\d+: (.*)$`)
+var apiErr = regexp.MustCompile(`(?m)^(?:\./)?api/a(\d+)\.go:\d+:\d+: (.*)$`)
 var compErr = regexp.MustCompile(`(?m)^(?:\./)?gen/c(\d+)\.go:\d+:\d+: (.*)$`)
 
 // BuildDriver writes the registry and the driver and builds it; generated files that do not compile are
@@ -61,15 +61,21 @@ func (b *Batch) BuildDriver(extraImports []string, race bool) error {
 		for _, imp := range extraImports {
 			reg.WriteString("\t" + imp + "\n")
 		}
+		// API assertions: one file per scenario in package api (compile errors are attributed by file name)
+		apiDir := filepath.Join(b.Work, "api")
+		nAPI := 0
 		for id, body := range b.API {
+			f := filepath.Join(apiDir, fmt.Sprintf("a%d.go", id))
 			if b.OK[id] && b.BadAPI[id] == "" {
-				dir := filepath.Join(b.Work, fmt.Sprintf("api%d", id))
-				Must(os.MkdirAll(dir, 0o755))
-				Must(os.WriteFile(filepath.Join(dir, "api.go"), []byte(fmt.Sprintf("//go:build !goverter\n\npackage api%d\n\n%s", id, body)), 0o644))
-				reg.WriteString(fmt.Sprintf("\t_ \"%s/api%d\"\n", b.Mod, id))
+				Must(os.MkdirAll(apiDir, 0o755))
+				Must(os.WriteFile(f, []byte("//go:build !goverter\n\npackage api\n\n"+body), 0o644))
+				nAPI++
 			} else {
-				os.RemoveAll(filepath.Join(b.Work, fmt.Sprintf("api%d", id)))
+				os.Remove(f)
 			}
+		}
+		if nAPI > 0 {
+			reg.WriteString(fmt.Sprintf("\t_ \"%s/api\"\n", b.Mod))
 		}
 		reg.WriteString(")\n\nvar _ = gen.Keep\n\nvar setFaults = map[int]func(bool){}\n\nvar registry = map[int]reflect.Value{\n")
 		ids := make([]int, 0, len(b.Reg))
